@@ -6,7 +6,8 @@
    cf_fix_none / cf_fix_value / cf_fix_mask (fix-F2, fix-F3, fix-F4) all true.  Part 1 states the theorems
    about that code; part 2 keeps the refutations for the unrepaired behaviour as the record of the defects. *)
 From Coq Require Import List ZArith NArith Permutation.
-From HV Require Import Base.Res Model.FileValidate Proofs.FileValidateProofs Proofs.FileValidateShuffle.
+From HV Require Import Base.Res Model.FileValidate Proofs.FileValidateProofs Proofs.FileValidateShuffle
+  Proofs.FileValidateHistory.
 Import ListNotations.
 
 (* ================================ part 1: the code as it now is ================================ *)
@@ -159,6 +160,55 @@ Example C07_nonvacuous :
             string_raws nat l 3 = [2; 2] /\ string_raws nat l 4 = [2] /\
             needs_sorting (cfg0 false true true) t_ok = true /\ count_unordered nat l = 1.
 Proof. exact row_equals_string_nonvacuous. Qed.
+
+(* ---- histories on one input object ------------------------------------------------------------------
+   The object's only state that validation reads is the table it holds.  For EVERY sequence of in-place edits
+   (set_cell, convert_to_short/long, writes through .dataframe -- each seen as "row k now has this content")
+   and validations, each report is validate of the table held at that moment, i.e. the report a fresh object
+   holding the current table gets; every other theorem of this file therefore applies to every report of every
+   history.  (True of the model by construction; tied to the code by the history stream of the correspondence
+   run, which validates, edits the same object and validates again.) *)
+Theorem C07_history_reports :
+  forall (raw : Type) (raw_is_error : raw -> bool) (basic : N -> list raw) (full banned : ann -> list raw)
+         (nonempty : ann -> bool) (tstate : Type) (temporal : tstate -> ann -> tstate * list raw)
+         (tinit : tstate) (pre post : list raw) (cfg : config) (t : list row) (ops : list op) (k : nat)
+         (rep : res (list (issue raw))),
+    nth_error (run_history raw raw_is_error basic full banned nonempty tstate temporal tinit pre post cfg t ops) k
+      = Some (HReport rep) ->
+    rep = validate raw raw_is_error basic full banned nonempty tstate temporal tinit pre post cfg
+            (table_after t (firstn k ops)).
+Proof. exact history_reports. Qed.
+Print Assumptions C07_history_reports.
+
+Theorem C07_history_same_as_fresh :
+  forall (raw : Type) (raw_is_error : raw -> bool) (basic : N -> list raw) (full banned : ann -> list raw)
+         (nonempty : ann -> bool) (tstate : Type) (temporal : tstate -> ann -> tstate * list raw)
+         (tinit : tstate) (pre post : list raw) (cfg : config) (t : list row) (ops : list op) (k : nat)
+         (rep : res (list (issue raw))),
+    nth_error (run_history raw raw_is_error basic full banned nonempty tstate temporal tinit pre post cfg t ops) k
+      = Some (HReport rep) ->
+    run_history raw raw_is_error basic full banned nonempty tstate temporal tinit pre post cfg
+      (table_after t (firstn k ops)) [OValidate] = [HReport rep].
+Proof. exact history_same_as_fresh. Qed.
+Print Assumptions C07_history_same_as_fresh.
+
+Theorem C07_history_never_raises :
+  forall (raw : Type) (raw_is_error : raw -> bool) (basic : N -> list raw) (full banned : ann -> list raw)
+         (nonempty : ann -> bool) (tstate : Type) (temporal : tstate -> ann -> tstate * list raw)
+         (tinit : tstate) (pre post : list raw) (cfg : config) (t : list row) (ops : list op)
+         (rep : res (list (issue raw))),
+    cf_fixed cfg = true -> cf_fix_none cfg = true -> cf_fix_value cfg = true ->
+    In (HReport rep) (run_history raw raw_is_error basic full banned nonempty tstate temporal tinit pre post cfg t ops) ->
+    exists l, rep = Ok l.
+Proof. exact history_never_raises. Qed.
+Print Assumptions C07_history_never_raises.
+
+(* non-vacuity: validate, repair the erroneous cell of file row 3 in place, validate again *)
+Example C07_history_nonvacuous :
+  exists l1 l2, run_history nat w_err w_basic w_full w_banned w_nonempty nat w_temporal 0 [] [] (cfg0 false true true) h_tab h_ops
+                = [HReport (Ok l1); HSet None; HReport (Ok l2)] /\
+                In (mk (SBasic 1) (Some 3) (Some 1%N)) l1 /\ ~ In (mk (SBasic 1) (Some 3) (Some 1%N)) l2.
+Proof. exact history_nonvacuous. Qed.
 
 (* ================== part 2: records of the repaired defects (unrepaired behaviour) ================== *)
 
